@@ -52,7 +52,7 @@ static int inst_step (INST *in)
 			default : if (vh_make_file (&in->m, sp->format, ch, 8000, 1200, 1)) { in->done = 1 ; rec (in, "make-file-failed", -1, NULL, 0) ; return 0 ; }
 				/* a quarter of the read scripts work on a "foreign" file: a few header bytes behind the format tag are altered (parameter tables of block codecs, rates, sizes); whatever a handle
 				** learns from such a file must stay with that handle */
-				if ((sp->seed & 0xC0000) == 0x40000 && in->m.len > 80) { int z ; uint64_t x = sp->seed ; for (z = 0 ; z < 3 ; z++) { long pos ; x = vh_mix (x + z) ; pos = 38 + (long) (x % 34) ; in->m.d [pos] ^= (unsigned char) (1u << ((x >> 8) % 3)) ; } }
+				if (sp->kind == K_READ && (sp->seed & 0xC0000) == 0x40000 && in->m.len > 80) {	/* read scripts only: a damaged file opened SFM_RDWR runs into the known header-rewrite defect of C16 */ int z ; uint64_t x = sp->seed ; for (z = 0 ; z < 3 ; z++) { long pos ; x = vh_mix (x + z) ; pos = 38 + (long) (x % 34) ; in->m.d [pos] ^= (unsigned char) (1u << ((x >> 8) % 3)) ; } }
 				if ((sp->format & SF_FORMAT_TYPEMASK) == SF_FORMAT_RAW) { si.format = sp->format ; si.channels = ch ; si.samplerate = 8000 ; } in->m.pos = 0 ;
 				in->s = sf_open_virtual (&MVIO, sp->kind == K_READ ? SFM_READ : SFM_RDWR, &si, &in->m) ; break ;
 			}
